@@ -13,7 +13,8 @@ argv[1] = JSON:
   {"mode": "cases", "inp": descriptors file, "out": cases file, "seed": s, "hyp": n, "dump": bool}
       expands every descriptor {k, v, pop, t, c, cls, old, mo} (or an explicit {"k": "doc", ...}) into a
       document, plus n Hypothesis documents; writes
-        out            {"curn", "curv", "cur", "schemas": {v: ...}, "cases": [...]}   (read by TLC)
+        out            {"curn", "curv", "cur", "schemas": {v: ...}, "pool": [action records],
+                        "cases": [...]}   (read by TLC; a case lists its actions as indices into pool)
         out.docs.json  {case index: raw document}  (Hypothesis cases always, all cases with "dump")
 
 A raw document is {"v", "mo", "types": {user table: {col: type}}, "ordinary": [...],
@@ -416,6 +417,16 @@ def where_of(exc):
   return mig, inner
 
 
+POOL = {}      # uniform action record (as JSON text) -> 1-based index into the file-level "pool"
+
+
+def pooled(rec):
+  key = json.dumps(rec, sort_keys=True)
+  if key not in POOL:
+    POOL[key] = len(POOL) + 1
+  return POOL[key]
+
+
 def run_doc(inp, doc):
   tt = TokenTable()
   v = doc["v"]
@@ -445,7 +456,7 @@ def run_doc(inp, doc):
               ([rep[2]] if rep[0] in ("AddRecord", "UpdateRecord", "RemoveRecord") else [])
     # positions (1-based) whose row id is None = "assign the next free id" (SQLite, useractions)
     rec["auto"] = [i + 1 for i, r in enumerate(raw_ids) if r is None]
-    case["actions"].append(rec)
+    case["actions"].append(pooled(rec))
   return case
 
 
@@ -516,7 +527,9 @@ def main():
   used = sorted({str(c["v"]) for c in cases})
   with open(args["out"], "w") as f:
     json.dump({"curn": hist["curn"], "curv": hist["curv"], "cur": hist["cur"],
-               "schemas": {v: hist["schemas"][v] for v in used}, "cases": cases}, f)
+               "schemas": {v: hist["schemas"][v] for v in used},
+               "pool": [json.loads(k) for k, _ in sorted(POOL.items(), key=lambda kv: kv[1])],
+               "cases": cases}, f)
   with open(args["out"] + ".docs.json", "w") as f:
     json.dump(docs, f)
 
